@@ -1396,7 +1396,7 @@ class Evaluator:
             return None
         if is_const(recv) or recv[0] in ("fstr", "global"):
             return None
-        if name == "append" and len(args) == 1:
+        if name in ("append", "add") and len(args) == 1 and (name == "append" or not concrete):
             if concrete:
                 o["items"].append(args[0])
             else:
